@@ -300,7 +300,8 @@ class SegmentTensor(PolytopeTensor):
                     return cast(SegmentTensor, a).intersect(cast(SegmentTensor, b))
 
             result = meet(self._line, other._line, _check_dependence=False)
-            collinear = result.is_zero()
+            # the rescaled result only vanishes when the lines coincide exactly, test the result before it is rescaled
+            collinear = meet(self._line, other._line, _check_dependence=False, _normalize_result=False).is_zero()
             ind = ~collinear & self.contains(result) & other.contains(result)
 
             if np.any(collinear):
